@@ -748,23 +748,32 @@ def run_queue_case(env, case):
         live.close()
         return key, why, stats
     nout = len(tr.out)
-    t_cross = env.loop.time()
-    first_leaver = case['which'] if route == 'holder' else 0
+    # the same history for the composed model (drv_c14 Q): arrivals, the crossing, the completions.
+    # (Not for route 'holder': there the permit is released before the failure is charged, an
+    # interleaving below the granularity of the composed big-step model.)
+    mops = [f'A{i}' for i in range(n + w)]
     if route == 'holder':
+        mops = None
         live.release(case['which'], case['cost'])
     elif route == 'bump':
         s.bump_cost(case['cost'])
         s.recalc_concurrency()
+        mops += [f'b{fr(case["cost"])}', 'r']
     elif route == 'garbage':
         guard = 0
+        before = s.cost
         while live.lim.max_concurrent > 0 and guard < 200 and not s.is_closing():
             live.feed(malformed_bytes(live, ('badsum' if kind == 'msg' else 'garbage', 900 + guard)))
             env.idle()
             guard += 1
         s.recalc_concurrency()
+        # what the garbage cost is an observation (base + an error-specific cost): one bump
+        mops += [f'b{fr(s.cost - before)}', 'r']
     elif route == 'traffic':
-        s.data_received(_Sized(int(case['cost'] / max(cfg['bw'], 1e-9)) + 1))
+        nbytes = int(case['cost'] / max(cfg['bw'], 1e-9)) + 1
+        s.data_received(_Sized(nbytes))
         s.recalc_concurrency()
+        mops += [f'd{nbytes}', 'r']
     env.idle()
     limit = live.lim.max_concurrent
     ev = s.cost + s._extra
@@ -776,7 +785,11 @@ def run_queue_case(env, case):
         for i in range(n):
             live.release(i, None)
             env.idle()
+        if mops is not None:
+            mops += [f'F{i}' for i in range(n)]
         env.advance(cfg['sleep'] * 4 + 1)
+        stats['model'] = (mops, len(live.hooks()), bool(s.is_closing()),
+                          sorted(e[1] for e in live.starts() if e[1] >= n))
         late = [e for e in live.starts() if e[1] >= n]
         for e in late:
             if e[3] <= 0:
@@ -829,8 +842,38 @@ def _queue_batch(cases):
     return [run_queue_case(_env, c) for c in cases]
 
 
+def compare_queue_model(ctx, res, cases, results, threshold):
+    """the queue scenarios against the composed model C14.Sess (accounting + C13 limiter)"""
+    lines, idx = [], []
+    for k, (case, (_key, _why, stats)) in enumerate(zip(cases, results)):
+        m = stats.get('model')
+        if m and m[0]:
+            lines.append('Q ' + cfg_line(case['cfg'], False, threshold, 0.0)[2:] + ' | ' + ' '.join(m[0]))
+            idx.append(k)
+    out = ctx.model(lines) if lines else []
+    if out is None:
+        return
+    for k, mline in zip(idx, out):
+        case, (_key, _why, stats) = cases[k], results[k]
+        _mops, hooks, closing, late = stats['model']
+        last = mline.split(' | ')[-1]
+        fields = dict(f.split('=') for f in last.split(';')[1:])
+        m_entered = sorted(int(e[1:]) for rec in mline.split(' | ') for e in rec.split(';')[0].split(',')
+                           if e.startswith('E') and int(e[1:]) >= case['cfg']['init'])
+        m_closed, m_hooks = fields['closed'] == '1', int(fields['hooks'])
+        got = (closing, hooks >= 1, late)
+        mod = (m_closed, m_hooks >= 1, m_entered)
+        if got != mod or hooks > m_hooks:
+            res.disagreement(dict(case, level='queue'),
+                             f'closing={closing} hooks={hooks} queued requests executed={late}',
+                             f'closed={m_closed} hooks={m_hooks} executed={m_entered}', ops=' '.join(_mops))
+        res.count('queue_cases_compared_with_composed_model')
+
+
 def evaluate_queue(ctx, res, cases):
     results = _pmap(ctx, _queue_batch, cases, chunk=50)
+    if ctx.have_model:
+        compare_queue_model(ctx, res, cases, results, ctx.facts.get('drift_threshold', 100))
     for case, (key, why, stats) in zip(cases, results):
         c = dict(case, level='queue')
         if why:
